@@ -36,7 +36,7 @@ int main(int argc,char**argv){
 	if(argc<3) return 9;
 	for(char *s=strtok(argv[1],"/"); s && nprog<MAXTH; s=strtok(0,"/")) prog[nprog++]=s;
 	cds_wfcq_init(&h,&tl); for(int i=0;i<10;i++) cds_wfcq_node_init(&n[i]);
-	vs_region(&h.node,sizeof h.node,"head"); vs_region(&tl,sizeof tl,"tail"); vs_region(n,sizeof n,"n");
+	vs_region(&h.node,sizeof h.node,"head"); vs_region(&tl,sizeof tl,"tail"); vs_region(n,sizeof n,"n"); vs_plain_track(n,sizeof n);   /* effective in the build with instrumented plain stores */
 	for(int i=0;i<nprog;i++) vs_spawn(body);
 	vs_run(argv[2]);
 	{ printf("- drain"); int tries=0; for(;;){ struct cds_wfcq_node *x=__cds_wfcq_dequeue_nonblocking(&h,&tl); if(x==CDS_WFCQ_WOULDBLOCK){ if(++tries>50){ printf(" WOULDBLOCK"); break; } continue; } if(!x) break; printf(" %d",(int)(x-n)); } printf("\n"); }
